@@ -25,8 +25,8 @@ func (u *UnwrapFunctionPlanner) Process(ctx *shared.PlannerContext) (sql.ISelect
 	var val sql.SQLObject
 	switch u.Func {
 	case "rate":
-		val = sql.NewRawObject(fmt.Sprintf("sum(unwrap_1.value) / %f",
-			float64(u.Duration.Milliseconds())/1000))
+		val = sql.NewRawObject(fmt.Sprintf("sum(unwrap_1.value) / %s",
+			durationSeconds(u.Duration)))
 	case "sum_over_time":
 		val = sql.NewRawObject("sum(unwrap_1.value)")
 	case "avg_over_time":
